@@ -108,6 +108,9 @@ func genVCs(w *World, db *ContractDB, ct *Contract) (res *FnResult) {
 		e.setHeap(st, "ARGS_"+sc, "(Array Int Bool)", "((as const (Array Int Bool)) false)")
 	}
 	e.H(st, "EXCL", "(Array Int Bool)")
+	e.H(st, "HELD", "(Array Int Bool)")
+	// a locked mutex gives exclusive access
+	e.assume("(forall ((m Int)) (! (=> (select " + e.H(st, "HELD", "(Array Int Bool)") + " m) (select " + e.H(st, "EXCL", "(Array Int Bool)") + " m)) :pattern ((select " + e.H(st, "HELD", "(Array Int Bool)") + " m))))")
 	for _, p := range fn.Params {
 		srt := e.sortOf(p.Type())
 		n := "p_" + sanitize(p.Name())
@@ -116,7 +119,20 @@ func genVCs(w *World, db *ContractDB, ct *Contract) (res *FnResult) {
 		e.assume(f.facts(n, p.Type(), st))
 	}
 	for _, fv := range fn.FreeVars {
-		f.vals[fv] = f.freshVal("fv_"+sanitize(fv.Name()), fv.Type(), st)
+		t := f.freshVal("fv_"+sanitize(fv.Name()), fv.Type(), st)
+		f.vals[fv] = t
+		if _, isP := fv.Type().(*types.Pointer); isP {
+			// a captured variable is a cell created by the enclosing function: never nil, distinct per variable
+			e.assume("(not (= " + t.S + " 0))")
+			for _, other := range fn.FreeVars {
+				if other == fv {
+					break
+				}
+				if o, ok := f.vals[other]; ok && o.Sort == t.Sort {
+					e.assume("(not (= " + t.S + " " + o.S + "))")
+				}
+			}
+		}
 	}
 	env := f.specEnv(st)
 	env.pkg = ct.Pkg
@@ -371,7 +387,7 @@ func (f *frame) frameObligations(ct *Contract, entry *State) {
 			}
 		}
 		for _, n := range names {
-			if n == "W" || n == "EXCL" || strings.HasPrefix(n, "LAST_") || strings.HasPrefix(n, "CALLED_") || strings.HasPrefix(n, "COUNT_") || strings.HasPrefix(n, "ARGS_") || strings.HasPrefix(n, "VIS_") || strings.HasPrefix(n, "LASTB_") {
+			if n == "W" || n == "EXCL" || n == "HELD" || strings.HasPrefix(n, "LAST_") || strings.HasPrefix(n, "CALLED_") || strings.HasPrefix(n, "COUNT_") || strings.HasPrefix(n, "ARGS_") || strings.HasPrefix(n, "VIS_") || strings.HasPrefix(n, "LASTB_") {
 				continue
 			}
 			v0, v1 := e.ver(entry, n), e.ver(r.st, n)
